@@ -336,7 +336,7 @@ def run(chk):
     # ---------------- 2b. the same round trip with the option escape=true (json-to-xml keeps the escapes and marks strings and
     # keys with escaped / escaped-key, xml-to-json must copy them): every character, solidus written as \\/ at random
     evals = [gen_value(rng, rng.choice([1, 2, 3])) for _ in range(100 if quick else 4000)]
-    evals += [{'__obj__': [('\\', 1)]}, {'__obj__': [('a\nb', None), ('c"d', True), ('/', [])]}, 'A/', '\\/', '\x00\x1f', {'__obj__': [('k/\\', {'__obj__': [('\t', 'v/')]})]}]
+    evals += ['\\"', '\\/', '\\n', 'a\\"b/', '\\\\"', {'__obj__': [('\\"', '\\"{{')]}, {'__obj__': [('\\', 1)]}, {'__obj__': [('a\nb', None), ('c"d', True), ('/', [])]}, 'A/', '\\/', '\x00\x1f', {'__obj__': [('k/\\', {'__obj__': [('\t', 'v/')]})]}]
     pm = core.run_coq_cases('C17', IMPORTS, [f'run_print {to_coq(v)}' for v in evals], chunk=80, tag='jxe') if model_ok else [None] * len(evals)
     outs = []
     for v, printed in zip(evals, pm):
@@ -399,11 +399,160 @@ def run(chk):
             if got != want or eq is not True:
                 chk.violation('impl-vs-spec', desc, {'serialize': text[:300], 'canonical equal': got == want, 'deep-equal(parse-xml(serialize(.)), .)': eq})
             chk.nontrivial.add(lib + trees.serialize(t))
+    # ---------------- 3b. trees with markup characters, white space characters (tab, LF, CR), non-ASCII text, namespaces
+    # (prefixed, default, undeclared default inside) in names and attributes, built programmatically for both libraries
+    import lxml.etree as LE
+    PIECES = ['<', '&', '>', '"', "'", '\t', '\n', '\r', ' ', 'é', '\U0001F600', ']]>', 'a', '1', '\x85', '\u2028', '&amp;', '&#13;']
+    URIS = [None, None, 'urn:p', 'urn:q', 'urn:d']
+
+    def rich_text():
+        return ''.join(rng.choice(PIECES) for _ in range(rng.randint(1, 4)))
+
+    def rich_tree(depth, budget):
+        budget[0] -= 1
+        t = {'uri': rng.choice(URIS), 'name': rng.choice(['a', 'b', 'c']), 'attrs': [], 'text': None, 'children': [], 'tail': None}
+        for k in range(rng.choice([0, 0, 1, 2])):
+            t['attrs'].append((rng.choice([None, None, 'urn:p', 'urn:q']), 'k%d' % k, rich_text()))
+        if rng.random() < 0.6:
+            t['text'] = rich_text()
+        while budget[0] > 0 and depth < 3 and rng.random() < 0.6:
+            c = rich_tree(depth + 1, budget)
+            if rng.random() < 0.5:
+                c['tail'] = rich_text()
+            t['children'].append(c)
+        return t
+
+    def q(uri, name):
+        return name if uri is None else '{%s}%s' % (uri, name)
+
+    def build(mod, t, parent=None):
+        e = mod.Element(q(t['uri'], t['name'])) if parent is None else mod.SubElement(parent, q(t['uri'], t['name']))
+        for u, k, v in t['attrs']:
+            e.set(q(u, k), v)
+        e.text = t['text']
+        for c in t['children']:
+            build(mod, c, e).tail = c['tail']
+        return e
+
+    def ref_text(t):
+        # reference serialization: every markup and white space character escaped
+        def esc_t(x):
+            return (x or '').replace('&', '&amp;').replace('<', '&lt;').replace('>', '&gt;').replace('\r', '&#13;')
+
+        def esc_a(x):
+            return esc_t(x).replace('"', '&quot;').replace('\t', '&#9;').replace('\n', '&#10;')
+        pfx = {'urn:p': 'p', 'urn:q': 'q', 'urn:d': 'd'}
+        nsd = ''.join(' xmlns:%s="%s"' % (v, k) for k, v in pfx.items())
+        name = t['name'] if t['uri'] is None else pfx[t['uri']] + ':' + t['name']
+        attrs = ''.join(' %s="%s"' % (k if u is None else pfx[u] + ':' + k, esc_a(v)) for u, k, v in t['attrs'])
+        return '<%s%s%s>%s%s</%s>%s' % (name, nsd, attrs, esc_t(t['text']), ''.join(ref_text(c) for c in t['children']), name, esc_t(t['tail']))
+
+    for _ in range(60 if quick else 2500):
+        t = rich_tree(0, [rng.choice([1, 3, 6])])
+        want = ET.canonicalize(ref_text(t), rewrite_prefixes=True)
+        for lib, mod in (('et', ET), ('lxml', LE)):
+            chk.evaluations += 1
+            chk.count('xml-rich:' + lib)
+            elem = build(mod, t)
+            desc = {'lib': lib, 'tree': ascii(ref_text(t))[:400]}
+            try:
+                text = select(elem, 'serialize(.)', parser=XPath31Parser)
+                text = text[0] if isinstance(text, list) else text
+                eq = select(elem, 'deep-equal(parse-xml($s)/*, .)', variables={'s': text}, parser=XPath31Parser)
+                got = ET.canonicalize(text, rewrite_prefixes=True)
+            except ElementPathError as ex:
+                chk.violation('impl-vs-spec', desc, 'raised ' + str(ex)[:200])
+                continue
+            except ET.ParseError as ex:
+                chk.violation('impl-vs-spec', desc, {'serialized text is not XML': str(ex), 'text': ascii(text)[:200]})
+                continue
+            if got != want or eq is not True:
+                if lib == 'et' and '\r' in ''.join((x['text'] or '') + (x['tail'] or '') for x in walk(t)) and '\r' in text:
+                    chk.known('C17-etree-carriage-return-in-text', desc | {'serialize': ascii(text)[:200]})
+                    continue
+                chk.violation('impl-vs-spec', desc, {'serialize': ascii(text)[:300], 'canonical equal': got == want, 'deep-equal(parse-xml(serialize(.)), .)': eq})
+            chk.nontrivial.add(lib + ref_text(t))
+            # every element of the tree on its own: the tail is a sibling text node and is not serialized
+            nodes = list(walk(t))
+            for k, sub in enumerate(nodes[1:], start=2):
+                chk.evaluations += 1
+                chk.count('xml-rich-descendant:' + lib)
+                wsub = ET.canonicalize(ref_text(dict(sub, tail=None)), rewrite_prefixes=True)
+                dsub = {'lib': lib, 'tree': ascii(ref_text(t))[:300], 'element (document order)': k}
+                try:
+                    text = select(elem, f'serialize((//*)[{k}])', parser=XPath31Parser)
+                    text = text[0] if isinstance(text, list) else text
+                    eq = select(elem, f'deep-equal(parse-xml($s)/*, (//*)[{k}])', variables={'s': text}, parser=XPath31Parser)
+                    got = ET.canonicalize(text, rewrite_prefixes=True)
+                except ElementPathError as ex:
+                    chk.violation('impl-vs-spec', dsub, 'raised ' + str(ex)[:200])
+                    continue
+                except ET.ParseError as ex:
+                    chk.violation('impl-vs-spec', dsub, {'serialized text is not XML': str(ex), 'text': ascii(text)[:200]})
+                    continue
+                if got != wsub or eq is not True:
+                    if lib == 'et' and '\r' in text:
+                        chk.known('C17-etree-carriage-return-in-text', dsub | {'serialize': ascii(text)[:200]})
+                        continue
+                    chk.violation('impl-vs-spec', dsub, {'serialize': ascii(text)[:300], 'canonical equal': got == wsub, 'deep-equal(parse-xml(serialize(.)), .)': eq})
+    # ---------------- 3c. fn:deep-equal, the oracle of the XML round trip, on elements: equal to a rebuilt copy whatever the tail
+    # of either element, different from a copy in which one text, tail or attribute value changed (white space included)
+    import copy as _copy
+
+    def mutate(t):
+        m = _copy.deepcopy(t)
+        nodes = list(walk(m))
+        for _ in range(20):
+            n = rng.choice(nodes)
+            slot = rng.choice(['text', 'tail', 'attr'])
+            if slot == 'tail' and n is m:
+                continue
+            if slot == 'attr':
+                if not n['attrs']:
+                    continue
+                k = rng.randrange(len(n['attrs']))
+                u, name, v = n['attrs'][k]
+                n['attrs'][k] = (u, name, rng.choice([v + ' ', ' ' + v, v + 'x']))
+                return m
+            old_v = n[slot] or ''
+            n[slot] = rng.choice([old_v + ' ', ' ' + old_v, old_v + 'x', '\n' + old_v])
+            return m
+        return None
+
+    for _ in range(40 if quick else 1500):
+        t = rich_tree(0, [rng.choice([1, 3, 6])])
+        m = mutate(t)
+        for lib, mod in (('et', ET), ('lxml', LE)):
+            holder = mod.Element('holder')
+            e1 = build(mod, t)
+            e2 = build(mod, t, holder)
+            e2.tail = rich_text()
+            chk.evaluations += 1
+            chk.count('deep-equal-nodes:' + lib)
+            desc = {'lib': lib, 'tree': ascii(ref_text(t))[:300]}
+            try:
+                same_ = select(e1, 'deep-equal(., $o)', variables={'o': e2}, parser=XPath31Parser)
+                diff_ = None if m is None else select(e1, 'deep-equal(., $o)', variables={'o': build(mod, m)}, parser=XPath31Parser)
+            except ElementPathError as ex:
+                chk.violation('impl-vs-spec', desc, 'raised ' + str(ex)[:200])
+                continue
+            if same_ is not True:
+                chk.violation('impl-vs-spec', desc | {'second element has the tail': ascii(e2.tail)}, {'deep-equal of an element and its copy': same_})
+            if m is not None and diff_ is not False:
+                chk.violation('impl-vs-spec', desc | {'changed copy': ascii(ref_text(m))[:300]}, {'deep-equal of different elements': diff_})
+            chk.nontrivial.add('de' + lib + ref_text(t))
     chk.rule = ('fixed + seeded random JSON values (depth <= 3; strings over quotes, backslash, slash, control, non-ASCII, astral and boundary code '
                 'points; integers to 10^20; doubles needing 17 digits, tiny and huge) through fn:serialize -> Coq parser, Coq printer (plain and '
                 're-spaced) -> fn:parse-json, parse-json(serialize(v)); XML-safe values through xml-to-json(json-to-xml(t)) -> Coq parser; all '
-                'element shapes <= 3 nodes + seeded random trees x {xml.etree, lxml} through parse-xml(serialize(.)); non-trivial = distinct value / tree')
+                'element shapes <= 3 nodes + seeded random trees x {xml.etree, lxml} through parse-xml(serialize(.)); trees with markup / white space / non-ASCII characters and namespaces, '
+                'the root and every descendant element serialized on its own, against a reference serialization (canonical XML) and fn:deep-equal; the escape=true JSON round trip; non-trivial = distinct value / tree')
     chk.obligations.append({'name': 'correspondence:impl==JSON codec', 'ok': not any(v['kind'] == 'impl-vs-spec' for v in chk.violations), 'detail': 'see violations'})
+
+
+def walk(t):
+    yield t
+    for c in t['children']:
+        yield from walk(c)
 
 
 def ascii_free(v):
